@@ -16,10 +16,10 @@ import (
 	"github.com/ethereum/go-ethereum/common"
 	"github.com/ethereum/go-ethereum/crypto"
 	"github.com/ethereum/go-ethereum/crypto/ecies"
+	"github.com/tendermint/go-amino"
 	abcitypes "github.com/tendermint/tendermint/abci/types"
 	tmcrypto "github.com/tendermint/tendermint/proto/tendermint/crypto"
 	tmproto "github.com/tendermint/tendermint/proto/tendermint/types"
-	"github.com/tendermint/go-amino"
 	"google.golang.org/protobuf/proto"
 
 	"github.com/shutter-network/shutter/shlib/shcrypto"
@@ -81,13 +81,13 @@ func AddrList(as []common.Address) string {
 
 // Payload is a transaction payload before protobuf encoding.
 type Payload struct {
-	Kind       string // bc bs ci dr pe pc ac ap none
-	A, T, I    uint64 // bc: activation, threshold, index; others: A = eon or block
-	Addrs      [][]byte
-	Flag       bool     // dr: success
-	Seq        [][]byte // pe: encrypted evals; ap: poly evals; pc: gammas (compressed)
-	ValKey     []byte
-	EncKey     []byte // compressed secp256k1 key (or garbage)
+	Kind    string // bc bs ci dr pe pc ac ap none nomsg
+	A, T, I uint64 // bc: activation, threshold, index; others: A = eon or block
+	Addrs   [][]byte
+	Flag    bool     // dr: success
+	Seq     [][]byte // pe: encrypted evals; ap: poly evals; pc: gammas (compressed)
+	ValKey  []byte
+	EncKey  []byte // compressed secp256k1 key (or garbage)
 }
 
 type TxSpec struct {
@@ -172,6 +172,8 @@ func (p *Payload) Message() *shmsg.Message {
 	case "ap":
 		return &shmsg.Message{Payload: &shmsg.Message_Apology{Apology: &shmsg.Apology{
 			Eon: p.A, Accusers: p.Addrs, PolyEvals: p.Seq}}}
+	case "nomsg": // an envelope (chain id, nonce, signature) around no message at all
+		return nil
 	default:
 		return &shmsg.Message{}
 	}
